@@ -99,7 +99,12 @@ func VerifC09Selector() {
 		uses[sel] = vfObject(vfObjVar+vfChoice("selkind", 5), remote, "N", nil)
 	}
 	se := &ast.SelectorExpr{X: x, Sel: sel}
-	fd := NewDecoratorWithImports(nil, vfLocal, gotypes.New(uses)).newFileDecorator()
+	// the decorated package may be the external test package of the imported one (path + "_test")
+	decPath := vfLocal
+	if vend == 0 && vfChoice("externalTest", 2) == 1 {
+		decPath = vfRemote + "_test"
+	}
+	fd := NewDecoratorWithImports(nil, decPath, gotypes.New(uses)).newFileDecorator()
 	got, err := fd.resolvePath(true, se, "SelectorExpr", "Sel", "Ident", sel)
 	vfReach("resolved")
 	vfAssert(err == nil, "no-error")
@@ -112,7 +117,12 @@ func VerifC09Selector() {
 
 // VerifC09Ident: id is a plain identifier in an expression position (dot-imports, locals, universe ...).
 func VerifC09Ident() {
-	local := types.NewPackage(vfLocal, "pkg")
+	// the decorated package may itself live below a vendor directory: its own objects are still local
+	localPath := vfLocal
+	if vfChoice("localVendored", 2) == 1 {
+		localPath = "root/vendor/" + vfLocal
+	}
+	local := types.NewPackage(localPath, "pkg")
 	remote := types.NewPackage(vfRemote, "lib")
 	id := &ast.Ident{Name: vfOpaque("name", "N")}
 	uses := map[*ast.Ident]types.Object{}
@@ -130,10 +140,27 @@ func VerifC09Ident() {
 	if vfChoice("parent", 2) == 1 {
 		parent, field = &ast.KeyValueExpr{Key: id, Value: &ast.Ident{Name: "v"}}, "Key"
 	}
-	fd := NewDecoratorWithImports(nil, vfLocal, gotypes.New(uses)).newFileDecorator()
+	// the parser may have resolved the identifier to a declaration in the same file (id.Obj): irrelevant
+	if owner == 0 && vfChoice("parserObj", 2) == 1 {
+		id.Obj = &ast.Object{Kind: ast.Fun, Name: id.Name}
+	}
+	// ResolveLocalPath: references to the package's own package-level objects get the package's own path
+	// (used when code is moved into another package)
+	resolveLocal := owner == 0 && vfChoice("resolveLocal", 2) == 1
+	dec := NewDecoratorWithImports(nil, localPath, gotypes.New(uses))
+	dec.ResolveLocalPath = resolveLocal
+	fd := dec.newFileDecorator()
 	got, err := fd.resolvePath(false, parent, vfTypeName(parent)[5:], field, "Expr", id)
 	vfReach("resolved")
 	vfAssert(err == nil, "no-error")
+	if resolveLocal {
+		if kind == vfObjVar || kind == vfObjFunc || kind == vfObjTypeName || kind == vfObjConst {
+			vfAssert(got == vfLocal, "local-object-gets-the-local-path-when-ResolveLocalPath")
+		} else if kind != vfObjPkgName && kind != vfObjLabel {
+			vfAssert(got == "", "local-universe-field-label-or-unknown-identifier-gets-no-path")
+		}
+		return
+	}
 	// a package-level object of the other package reached without qualifier (dot-import): Var (not a
 	// field), Func, TypeName, Const owned by the other package
 	remoteObject := owner == 1 && (kind == vfObjVar || kind == vfObjFunc || kind == vfObjTypeName || kind == vfObjConst)
@@ -201,6 +228,9 @@ func VerifC09Goast() {
 	dot := false
 	for i := 0; i < nimp; i++ {
 		s := &ast.ImportSpec{Path: &ast.BasicLit{Kind: token.STRING, Value: strconv.Quote(paths[i])}}
+		if i == 0 && vfChoice("rawLiteral", 2) == 1 {
+			s.Path.Value = "`" + paths[i] + "`" // import `x.y/lib`
+		}
 		name := resolved[paths[i]]
 		switch vfChoice("kind"+strconv.Itoa(i), 4) {
 		case 1:
@@ -261,4 +291,36 @@ func VerifC09Goast() {
 	tpath, terr := gotypes.New(uses).ResolveIdent(file, se, "Sel", sel)
 	vfAssert(terr == nil, "types-resolver-ok")
 	vfAssert(gpath == tpath, "syntax-resolver-agrees-with-types-resolver")
+}
+
+// VerifC09TwoFiles: one types-based resolver serves two files that bind the same package name (symbolic)
+// to two different import paths (math/rand in one file, crypto/rand in the other): each qualified
+// identifier gets the path its own file imports, in either call order, and asking again gives the same.
+func VerifC09TwoFiles() {
+	local := types.NewPackage(vfLocal, "pkg")
+	name := vfOpaque("name", "rand")
+	pa, pb := types.NewPackage("x.y/lib", "rand"), types.NewPackage("x.y/other", "rand")
+	xa, xb := &ast.Ident{Name: name}, &ast.Ident{Name: name}
+	sa, sb := &ast.Ident{Name: "N"}, &ast.Ident{Name: "N"}
+	uses := map[*ast.Ident]types.Object{
+		xa: types.NewPkgName(token.NoPos, local, name, pa),
+		xb: types.NewPkgName(token.NoPos, local, name, pb),
+	}
+	ea, eb := &ast.SelectorExpr{X: xa, Sel: sa}, &ast.SelectorExpr{X: xb, Sel: sb}
+	fa, fb := &ast.File{Name: &ast.Ident{Name: "pkg"}}, &ast.File{Name: &ast.Ident{Name: "pkg"}}
+	r := gotypes.New(uses)
+	var ga, gb string
+	var e1, e2 error
+	if vfChoice("order", 2) == 0 {
+		ga, e1 = r.ResolveIdent(fa, ea, "Sel", sa)
+		gb, e2 = r.ResolveIdent(fb, eb, "Sel", sb)
+	} else {
+		gb, e2 = r.ResolveIdent(fb, eb, "Sel", sb)
+		ga, e1 = r.ResolveIdent(fa, ea, "Sel", sa)
+	}
+	vfAssert(e1 == nil && e2 == nil, "no-error")
+	vfAssert(ga == "x.y/lib", "each-file-gets-its-own-import-path")
+	vfAssert(gb == "x.y/other", "each-file-gets-its-own-import-path")
+	ga2, _ := r.ResolveIdent(fa, ea, "Sel", sa)
+	vfAssert(ga2 == ga, "same-answer-when-asked-again")
 }
